@@ -530,6 +530,9 @@ class Scenario:
                                     'oid': oid, 'sid': sid, 'app': self.rec.app.get(oid, {}), 'done': False,
                                     'peer_done': fr.get('complete', False), 'hostile': True}
             return
+        elif x < 0.74:
+            # a LEASE nobody negotiated: on a connection without leases it grants and restricts nothing
+            fr = {'t': 'Lease', 'sid': 0, 'ign': False, 'ttl': rng.choice([0, 1, 60000]), 'n': rng.choice([0, 0, 1, 5]), 'md': b''}
         elif x < 0.8:
             fr = {'t': 'Keepalive', 'sid': rng.choice([0, sid]), 'ign': False, 'respond': rng.random() < 0.5, 'pos': 1, 'd': b'k'}
         elif x < 0.9:
